@@ -363,14 +363,16 @@ theorem newBlock_phase (c : Cfg) (s : St) (h : P c s .gotNew) (hs : s.state = .n
 /-- what `EstablishSession` guarantees -/
 def EstDone (c : Cfg) (r : Bool × St) : Prop :=
   ∃ p, P c r.2 p ∧ (r.1 = true → r.2.state = .established → p = .established) ∧
-    (r.1 = true → r.2.state = .failed → p = .term)
+    (r.1 = true → r.2.state = .failed → p = .term) ∧ (r.1 = true → p ≠ .ended)
 
 theorem estdone_false (c : Cfg) (s : St) (p : Phase) (h : P c s p) : EstDone c (false, s) :=
-  ⟨p, h, (fun hh => by cases hh), (fun hh => by cases hh)⟩
+  ⟨p, h, (fun hh => by cases hh), (fun hh => by cases hh), (fun hh => by cases hh)⟩
 
 theorem estdone_of_done (c : Cfg) (r : Bool × St) (h : Done c r) : EstDone c r := by
   obtain ⟨p, hp, hok⟩ := h
-  refine ⟨p, hp, fun h1 h2 => ?_, fun h1 h2 => ?_⟩
+  refine ⟨p, hp, fun h1 h2 => ?_, fun h1 h2 => ?_, fun h1 => ?_⟩
+  rotate_left 2
+  · rcases hok h1 with ⟨_, rfl⟩ | ⟨_, rfl⟩ <;> (intro hh; cases hh)
   · rcases hok h1 with ⟨_, rfl⟩ | ⟨h3, _⟩
     · rfl
     · rw [h3] at h2; cases h2
@@ -412,9 +414,9 @@ theorem establish_phase (c : Cfg) (s : St) (h : s.trace = []) : EstDone c (estab
           have hr' : r.1 = true := by simpa using hr
           rcases hok hr' with ⟨h3, rfl⟩ | ⟨h3, rfl⟩
           · simp only [h3, ne_eq, not_true_eq_false, false_and, ↓reduceIte]
-            exact ⟨_, hp, (fun _ _ => rfl), (fun _ h2 => by rw [h3] at h2; cases h2)⟩
+            exact ⟨_, hp, (fun _ _ => rfl), (fun _ h2 => by rw [h3] at h2; cases h2), (fun _ hh => by cases hh)⟩
           · simp only [h3, ne_eq, reduceCtorEq, not_false_eq_true, not_true_eq_false, false_and, and_false, ↓reduceIte]
-            exact ⟨_, hp, (fun _ h2 => by rw [h3] at h2; cases h2), (fun _ _ => rfl)⟩
+            exact ⟨_, hp, (fun _ h2 => by rw [h3] at h2; cases h2), (fun _ _ => rfl), (fun _ hh => by cases hh)⟩
       · simp only [hxs, ↓reduceIte, Bool.not_true, Bool.false_eq_true, hst, ne_eq, reduceCtorEq, not_false_eq_true,
           true_and]
         have hm : P c (recvSession c s).2 .mustFail := by
@@ -422,7 +424,7 @@ theorem establish_phase (c : Cfg) (s : St) (h : s.trace = []) : EstDone c (estab
           rw [this] at hq; exact hq
         split
         · exact estdone_of_done c _ (done_of_fail c _ .mustFail hm (mustFail_failed c _))
-        · exact ⟨_, hm, (fun _ h2 => by rw [hst] at h2; cases h2), (fun _ h2 => by rw [hst] at h2; cases h2)⟩
+        · exact ⟨_, hm, (fun _ h2 => by rw [hst] at h2; cases h2), (fun _ h2 => by rw [hst] at h2; cases h2), (fun _ hh => by cases hh)⟩
   · simp only [hnone]
     rcases hq with hq | hq
     · exact estdone_false c _ _ hq
@@ -454,7 +456,7 @@ theorem success_is_terminal (c : Cfg) (recvs : List Recv) (auths : List AuthOut)
     (r.ok = true → r.final.state = .failed → phaseOf c (obs r.trace.reverse) = some .term) := by
   unfold run
   simp only [List.reverse_reverse]
-  obtain ⟨p, hp, h1, h2⟩ := establish_phase c { recvs, auths, regs, sendOk, setEncOk, enc := enc0 } rfl
+  obtain ⟨p, hp, h1, h2, _⟩ := establish_phase c { recvs, auths, regs, sendOk, setEncOk, enc := enc0 } rfl
   exact ⟨fun a b => by rw [hp, h1 a b], fun a b => by rw [hp, h2 a b]⟩
 
 end Props.C07
